@@ -5,7 +5,10 @@ from .. import adapters as A
 from .. import spaces
 from ..refmodel import dtl
 from ..refmodel.trees import T, shape_from_json
+from ete3 import Tree
 from superrec2.compute.reconciliation import reconcile_lca
+from superrec2.model.reconciliation import ReconciliationInput
+from superrec2.utils.trees import LowestCommonAncestor
 
 PROP = "C07"
 LEVEL = "exploration"
@@ -16,7 +19,11 @@ RULE = (
     "{0..5}^2 are then evaluated arithmetically (spe = 0, hgt irrelevant). reconcile_lca must map every internal node "
     "to the model LCA of the species of its leaves, be valid, have implementation cost = model cost = the minimum over "
     "transfer-free mappings for all 36 vectors, and be the only minimiser whenever loss > 0. Non-trivial input: the LCA "
-    "mapping contains a duplication or a loss, or >= 2 transfer-free mappings exist."
+    "mapping contains a duplication or a loss, or >= 2 transfer-free mappings exist. Session slice (operation "
+    "histories): one species tree and one LowestCommonAncestor object (ancestors named / unnamed) shared by every object "
+    "tree of the bound, one leaf-mapping dict per object tree updated in place through all assignments, and every ordered "
+    "pair of assignments from a fresh dict on inputs with <= 27 assignments; every call must give the model LCA mapping "
+    "and cost of the current assignment (state carried between calls must not matter)."
 )
 ASSUMPTIONS = ["reference model refmodel/dtl.py; transfer-free = no node classified as a transfer by the documented event model"]
 BUDGET = {"quick": 200, "thorough": 2400}
@@ -26,10 +33,21 @@ GRID = [(d, l) for d in range(6) for l in range(6)]
 def plan(tier, seed):
     if tier == "quick":
         pairs = [("P4x4", p) for p in spaces.shape_pairs(4, 4)] + [("P5x3", p) for p in spaces.shape_pairs(5, 3, min_obj=5)]
+        sess = [(4, s) for n in range(1, 5) for s in spaces.binary_shapes(n)] + [(3, s) for s in spaces.binary_shapes(5)]
     else:
         pairs = [("P5x4", p) for p in spaces.shape_pairs(5, 4)] + [("P4x5", p) for p in spaces.shape_pairs(4, 5, min_sp=5)] + \
                 [("P3x6", p) for p in spaces.shape_pairs(3, 6, min_sp=6)]
-    return [{"slice": name, "osh": o, "ssh": s} for name, (o, s) in pairs]
+        sess = [(5, s) for n in range(1, 5) for s in spaces.binary_shapes(n)] + [(4, s) for s in spaces.binary_shapes(5)] + \
+               [(3, s) for s in spaces.binary_shapes(6)]
+    out = [{"slice": name, "osh": o, "ssh": s} for name, (o, s) in pairs]
+    # session mode (operation histories): one species tree and ONE LowestCommonAncestor object, ancestors named or
+    # unnamed, shared by every object tree up to max_obj leaves; per object tree one leaf-mapping dict that is updated
+    # in place from one leaf assignment to the next (the way a caller sweeps assignments); plus, on the small inputs,
+    # every ordered pair of assignments from a fresh state
+    for max_obj, ssh in sess:
+        for unnamed in (False, True):
+            out.append({"slice": "session", "mode": "session", "ssh": ssh, "max_obj": max_obj, "unnamed": unnamed})
+    return out
 
 
 def check_input(O, S, leafmap):
@@ -73,7 +91,81 @@ def check_input(O, S, leafmap):
     return None, (mine != (0, 0) or len(summ) >= 2)
 
 
+def session_step(O, S, ot, lca, los, onode, snode, leafmap):
+    """one reconcile_lca call in a session: shared trees, shared LCA structure, shared (already updated) mapping dict"""
+    inp = ReconciliationInput(ot, lca, los, A.cost_dict((0, 1, INF, 1, 1)))
+    try:
+        out = reconcile_lca(inp)
+        m = A.mapping_of(out, onode, snode)
+    except Exception as exc:
+        return ("exception", f"reconcile_lca raised {type(exc).__name__}: {exc}\n{traceback.format_exc(limit=5)}")
+    want = dtl.lca_mapping(O, S, leafmap)
+    if m != want:
+        return ("lca_mapping", f"reconcile_lca gives {sorted(m.items(), key=str)}, model LCA mapping {sorted(want.items())}")
+    ic = A.impl_cost(out.cost())
+    evs = dtl.events_of(O, S, leafmap, want)
+    wantc = sum(1 for e in evs.values() if e[0] == "D") + sum(e[1] for e in evs.values())
+    if ic != wantc:
+        return ("cost_mismatch", f"implementation cost {ic} of the LCA reconciliation != model cost {wantc}")
+    return None
+
+
+def run_session(ssh, max_obj, unnamed):
+    """explore one session; deterministic, so a replay simply runs the same session again.
+    -> (evaluations, nontrivial, violations)"""
+    S = T(ssh)
+    snames = {v: (f"s{v}" if (not S.children[v] or not unnamed) else "") for v in range(S.n)}
+    st = Tree(S.newick(snames), format=1)
+    snode = A.nodes_by_index(S, st)
+    lca = LowestCommonAncestor(st)
+    n_eval = nt = 0
+    viols = []
+    calls = 0
+
+    def steps_for(osh, seqs):
+        """seqs: list of assignment sequences, each run on ONE object tree + ONE dict"""
+        nonlocal n_eval, nt, calls
+        O = T(osh)
+        for seq in seqs:
+            onames = {v: (f"o{v}" if (not O.children[v] or not unnamed) else "") for v in range(O.n)}
+            ot = Tree(O.newick(onames), format=1)
+            onode = A.nodes_by_index(O, ot)
+            los = {}
+            done = []
+            for leafmap in seq:
+                for v, sp in leafmap.items():
+                    los[onode[v]] = snode[sp]
+                done.append(sorted(leafmap.items()))
+                n_eval += 1
+                calls += 1
+                if len(done) > 1:
+                    nt += 1
+                bad = session_step(O, S, ot, lca, los, onode, snode, leafmap)
+                if bad:
+                    if len(viols) < 3 and not any(x["subcheck"] == "session_" + bad[0] for x in viols):
+                        viols.append({"property": PROP, "subcheck": "session_" + bad[0],
+                                      "detail": f"call #{calls} of the session, object shape {osh}, assignments applied to the "
+                                                f"same mapping dict so far (last {len(done[-3:])}): {done[-3:]}: {bad[1]}",
+                                      "case": {"mode": "session", "species_shape": ssh, "max_obj": max_obj, "unnamed": unnamed}})
+                    break
+
+    for no in range(1, max_obj + 1):
+        for osh in spaces.binary_shapes(no):
+            O = T(osh)
+            asgs = list(spaces.assignments(O, S))
+            steps_for(osh, [asgs])                       # the sweep: one dict updated in place through all assignments
+            if len(asgs) <= 27:
+                steps_for(osh, [[a, b] for a in asgs for b in asgs])   # every depth-2 history from a fresh dict
+    return n_eval, nt, viols
+
+
 def run_shard(shard, tier, seed):
+    if shard.get("mode") == "session":
+        n_eval, nt, viols = run_session(shard["ssh"], shard["max_obj"], shard["unnamed"])
+        return {"evaluations": n_eval, "inputs": n_eval, "nontrivial": nt, "violations": viols, "violations_total": len(viols),
+                "samples": [{"mode": "session", "species_shape": shard["ssh"], "max_obj": shard["max_obj"],
+                             "unnamed": shard["unnamed"]}],
+                "counters": {"session_calls": n_eval}}
     osh, ssh = shard["osh"], shard["ssh"]
     O, S = T(osh), T(ssh)
     n_eval = nt = vtotal = 0
@@ -97,6 +189,9 @@ def run_shard(shard, tier, seed):
 
 def replay(v):
     c = v["case"]
+    if c.get("mode") == "session":
+        _, _, viols = run_session(shape_from_json(c["species_shape"]), c["max_obj"], c["unnamed"])
+        return {"violated": bool(viols), "detail": (viols[0]["subcheck"] + ": " + viols[0]["detail"]) if viols else None}
     O, S = T(shape_from_json(c["object_shape"])), T(shape_from_json(c["species_shape"]))
     leafmap = {int(k): int(x) for k, x in c["leaf_object_species"]}
     bad, _ = check_input(O, S, leafmap)
